@@ -12,7 +12,8 @@ use merlin::Transcript;
 
 #[derive(Clone, Debug, PartialEq, Eq)]
 pub enum Item {
-    Append { label: Vec<u8>, msg: Vec<u8>, what: String, protocol: bool },
+    /// `alt`: an alternative full encoding of the same element (compressed form of a point)
+    Append { label: Vec<u8>, msg: Vec<u8>, alt: Option<Vec<u8>>, what: String, protocol: bool },
     Challenge { label: Vec<u8>, what: String, protocol: bool },
 }
 
@@ -46,7 +47,10 @@ pub fn enc_scalar<F: PrimeField>(s: &F) -> Vec<u8> {
 }
 
 fn app(label: &[u8], msg: Vec<u8>, what: &str, protocol: bool) -> Item {
-    Item::Append { label: label.to_vec(), msg, what: what.to_string(), protocol }
+    Item::Append { label: label.to_vec(), msg, alt: None, what: what.to_string(), protocol }
+}
+fn app_pt<G: AffineRepr>(label: &[u8], p: &G, what: &str) -> Item {
+    Item::Append { label: label.to_vec(), msg: enc_point(p), alt: Some(enc_point_compressed(p)), what: what.to_string(), protocol: true }
 }
 fn chal(label: &[u8], what: &str, protocol: bool) -> Item {
     Item::Challenge { label: label.to_vec(), what: what.to_string(), protocol }
@@ -66,7 +70,7 @@ pub fn schedule<G: AffineRepr>(prog: &Program, commitments: &[G], m: &ProofMirro
         match op {
             Op::Commit { .. } => {
                 let v = commitments.get(ci).copied().unwrap_or(G::zero());
-                it.push(app(b"V", enc_point(&v), &format!("commitment V[{}]", ci), true));
+                it.push(app_pt(b"V", &v, &format!("commitment V[{}]", ci)));
                 ci += 1;
             }
             Op::TData { label, bytes } => it.push(app(ULABELS[*label as usize], bytes.clone(), "first-phase user data", false)),
@@ -75,9 +79,9 @@ pub fn schedule<G: AffineRepr>(prog: &Program, commitments: &[G], m: &ProofMirro
         }
     }
     it.push(app(b"m", (ci as u64).to_le_bytes().to_vec(), "commitment count m", true));
-    it.push(app(b"A_I1", enc_point(&m.A_I1), "A_I1", true));
-    it.push(app(b"A_O1", enc_point(&m.A_O1), "A_O1", true));
-    it.push(app(b"S1", enc_point(&m.S1), "S1", true));
+    it.push(app_pt(b"A_I1", &m.A_I1, "A_I1"));
+    it.push(app_pt(b"A_O1", &m.A_O1, "A_O1"));
+    it.push(app_pt(b"S1", &m.S1, "S1"));
     if bodies.is_empty() {
         it.push(app(b"dom-sep", b"r1cs-1phase".to_vec(), "domain separator 1phase", true));
     } else {
@@ -92,16 +96,16 @@ pub fn schedule<G: AffineRepr>(prog: &Program, commitments: &[G], m: &ProofMirro
             }
         }
     }
-    it.push(app(b"A_I2", enc_point(&m.A_I2), "A_I2", true));
-    it.push(app(b"A_O2", enc_point(&m.A_O2), "A_O2", true));
-    it.push(app(b"S2", enc_point(&m.S2), "S2", true));
+    it.push(app_pt(b"A_I2", &m.A_I2, "A_I2"));
+    it.push(app_pt(b"A_O2", &m.A_O2, "A_O2"));
+    it.push(app_pt(b"S2", &m.S2, "S2"));
     it.push(chal(b"y", "challenge y", true));
     it.push(chal(b"z", "challenge z", true));
-    it.push(app(b"T_1", enc_point(&m.T_1), "T_1", true));
-    it.push(app(b"T_3", enc_point(&m.T_3), "T_3", true));
-    it.push(app(b"T_4", enc_point(&m.T_4), "T_4", true));
-    it.push(app(b"T_5", enc_point(&m.T_5), "T_5", true));
-    it.push(app(b"T_6", enc_point(&m.T_6), "T_6", true));
+    it.push(app_pt(b"T_1", &m.T_1, "T_1"));
+    it.push(app_pt(b"T_3", &m.T_3, "T_3"));
+    it.push(app_pt(b"T_4", &m.T_4, "T_4"));
+    it.push(app_pt(b"T_5", &m.T_5, "T_5"));
+    it.push(app_pt(b"T_6", &m.T_6, "T_6"));
     it.push(chal(b"u", "challenge u", true));
     it.push(chal(b"x", "challenge x", true));
     it.push(app(b"t_x", enc_scalar(&m.t_x), "t_x", true));
@@ -113,8 +117,8 @@ pub fn schedule<G: AffineRepr>(prog: &Program, commitments: &[G], m: &ProofMirro
     it.push(app(b"n", (padded as u64).to_le_bytes().to_vec(), "ipp length n", true));
     let k = m.ipp.L.len().min(m.ipp.R.len());
     for j in 0..k {
-        it.push(app(b"L", enc_point(&m.ipp.L[j]), &format!("L[{}]", j), true));
-        it.push(app(b"R", enc_point(&m.ipp.R[j]), &format!("R[{}]", j), true));
+        it.push(app_pt(b"L", &m.ipp.L[j], &format!("L[{}]", j)));
+        it.push(app_pt(b"R", &m.ipp.R[j], &format!("R[{}]", j)));
         it.push(chal(b"u", &format!("ipp challenge u[{}]", j), true));
     }
     it
